@@ -112,8 +112,19 @@ def apply_ops(ctx, gd, S_names, acyclic, alias=False, ops=None):
         ctx.case(f"{gkey}|{op}|{skey if uses_set else ''}", n_edges >= 1 and (proper or not uses_set),
                  sample={"graph": gd, "op": op, "S": sorted(S_names)})
 
-    for op in SET_OPS:
-        run(op, lambda op=op: getattr(g, op)(set(S)))
+    # the vertex argument in every form the signatures admit: set, frozenset, list, tuple, a one-shot generator, and a
+    # bare Variable for a singleton (chosen by a hash-seed independent checksum, so every form meets every operation)
+    forms = [set, frozenset, lambda x: sorted(x, key=str), lambda x: tuple(sorted(x, key=str, reverse=True)),
+             lambda x: (v for v in sorted(x, key=str))]
+    for k, op in enumerate(SET_OPS):
+        which = (sum(map(ord, gkey + skey)) + k) % (len(forms) + 1)
+        if which == len(forms):
+            arg_fn = (lambda x: next(iter(x))) if len(S) == 1 else set
+        else:
+            arg_fn = forms[which]
+        if op == "get_markov_pillow" and which >= 4:
+            arg_fn = set  # documented as a Collection: a generator or a bare Variable is outside its signature
+        run(op, lambda op=op, arg_fn=arg_fn: getattr(g, op)(arg_fn(S)))
     run("districts", g.districts, uses_set=False)
     run("moralize", g.moralize, uses_set=False)
     run("disorient", g.disorient, uses_set=False)
